@@ -10,7 +10,8 @@ rep("""    pub fn free_inner(&mut self, page_number: u32, order: u8) -> (r: u8)
         ensures final(self).wf2(), final(self).same_shape(*old(self)), order <= r <= old(self).max_order,
             final(self).st().cov(order as int, page_number as int),
             forall|k: int, x: int| 0 <= k <= order ==> #[trigger] final(self).st().cov(k, x)
-                == (old(self).st().cov(k, x) || is_anc(k, x, order as int, page_number as int)),""")
+                == (old(self).st().cov(k, x) || is_anc(k, x, order as int, page_number as int)),
+            forall|j: int, y: int| #[trigger] final(self).st().a(j, y) ==> old(self).st().a(j, y) || j == r as int,""")
 rep("""            allocator.clear(page_number);
             return order;""","""            allocator.clear(page_number);
             proof { BS::lemma_free_case_clear(old(self).st(), self.st(), order as int, page_number as int); }
@@ -32,7 +33,7 @@ rep("""            allocator.set(buddy);
                 assert(!s1.st().a(order as int + 1, page_number as int / 2));
             }
             let r = self.free_inner(next_higher_order(page_number), order + 1);      // R12: tail call bound to a name
-            proof { BS::lemma_free_case_merge_post(old(self).st(), s1.st(), self.st(), order as int, page_number as int); }
+            proof { BS::lemma_free_case_merge_post(old(self).st(), s1.st(), self.st(), order as int, page_number as int, r as int); }
             r""")
 # wrappers
 rep("""    pub fn alloc(&mut self, order: u8) -> (r: Option<u32>)
@@ -40,7 +41,11 @@ rep("""    pub fn alloc(&mut self, order: u8) -> (r: Option<u32>)
         ensures final(self).shape(), final(self).same_shape(*old(self)),""","""    pub fn alloc(&mut self, order: u8) -> (r: Option<u32>)
         requires old(self).wf2(),
         ensures final(self).wf2(), final(self).same_shape(*old(self)),
-            r matches Some(p) ==> old(self).st().cov(order as int, p as int) && !final(self).st().cov(order as int, p as int),
+            r matches Some(p) ==> (p as int) < old(self).ord(order as int).len && old(self).st().cov(order as int, p as int) && !final(self).st().cov(order as int, p as int),
+            r matches Some(p) ==> forall|k: int, y: int| 0 <= k <= order ==> #[trigger] final(self).st().cov(k, y)
+                    == (old(self).st().cov(k, y) && !is_anc(k, y, order as int, p as int)),
+            r matches Some(p) ==> forall|j: int, y: int| #[trigger] final(self).st().a(j, y) ==> old(self).st().cov(j, y),
+            r is None ==> final(self).free@ == old(self).free@,
             r is None ==> forall|k: int, q: int| order <= k ==> !#[trigger] old(self).st().a(k, q),""")
 rep("""    pub fn free(&mut self, page_number: u32, order: u8) -> (r: u8)
         requires old(self).shape(), order <= old(self).max_order, (page_number as int) < old(self).ord(order as int).len,
